@@ -5,6 +5,7 @@ package main
 // ceiling, mangled base64, digest types 0-255.
 
 import (
+	"crypto"
 	"crypto/ed25519"
 	"encoding/hex"
 	"fmt"
@@ -105,7 +106,7 @@ func (w *world) unitKeyTag(st *stats, unit int) {
 	rng := w.r.RandN("keytag", unit)
 	for sub := 0; sub < keytagPerUnit; sub++ {
 		idx := unit*keytagPerUnit + sub
-		alg := uint8(idx) // every algorithm number in turn
+		alg := uint8(unit*(keytagPerUnit/4*3) + sub - sub/4) // every algorithm number in turn
 		if sub%4 == 3 {
 			alg = commonAlgs[rng.IntN(len(commonAlgs))]
 		}
@@ -178,6 +179,10 @@ func (w *world) unitDS(st *stats, unit int) {
 					emit(other, good, "ds-digest-of-other-type")
 				}
 			}
+		} else if direct := directDigest(k, dt); direct != nil {
+			// the library produces no DS (key too large to pack, undecodable, ...)
+			// but the digest such a key would have is computable: it must not match
+			emit(dt, direct, "ds-direct-digest-of-unpackable-key")
 		} else {
 			// a type nobody computes: offer plausible digests anyway
 			for _, l := range []int{20, 32, 48, 64} {
@@ -196,6 +201,36 @@ func (w *world) unitDS(st *stats, unit int) {
 	if unit == 0 {
 		st.samples = append(st.samples, map[string]any{"family": "ds", "alg": alg, "encoding": how, "size_class": sizeClass})
 	}
+}
+
+// directDigest is RFC 4034 §5.1.4 computed by hand, with no size ceiling, for
+// the digest types 1, 2 and 4 — what a key would hash to if the library could
+// pack it. Nil when the material does not decode or the type is another one.
+func directDigest(k *dns.DNSKEY, dt uint8) []byte {
+	var h crypto.Hash
+	switch dt {
+	case 1:
+		h = crypto.SHA1
+	case 2:
+		h = crypto.SHA256
+	case 4:
+		h = crypto.SHA384
+	default:
+		return nil
+	}
+	pub, err := b64dec(k.PublicKey)
+	if err != nil || len(pub) == 0 {
+		return nil
+	}
+	owner := make([]byte, 256)
+	n, err := dns.PackDomainName(asciiLower(fqdn(k.Hdr.Name)), owner, 0, nil, false)
+	if err != nil {
+		return nil
+	}
+	data := append([]byte(nil), owner[:n]...)
+	data = append(data, byte(k.Flags>>8), byte(k.Flags), k.Protocol, k.Algorithm)
+	data = append(data, pub...)
+	return hashBytes(h, data)
 }
 
 // ---------------------------------------------------------------- VerifyDS
